@@ -815,7 +815,9 @@ fn gen_c02(thorough: bool, rng: &mut Rng, emit: &mut dyn FnMut(&str, Vec<String>
                 k += 1;
                 let path = if round == 0 { paths[k % paths.len()] } else { *rng.pick(&paths) };
                 let query = *rng.pick(&queries);
-                let url = format!("https://{host}:PORT{path}{query}");
+                // a fragment is not part of the request target
+                let frag = *rng.pick(&["", "", "", "#", "#frag-1", "#a?b/c"]);
+                let url = format!("https://{host}:PORT{path}{query}{frag}");
                 let hdrs = if round == 0 && decision == "accept" {
                     vec![]
                 } else {
